@@ -18,7 +18,7 @@
        every admissible evaluation order (CallShape, shapes read off the headers: GenDisp).
    Refuted forms: each of the two unrepaired variants of doProcessIf violates (3)/(4).
    Only theorems (closed by `exact`), examples and Print Assumptions here. *)
-From Coq Require Import List Arith NArith ZArith Bool Permutation.
+From Coq Require Import List Arith NArith ZArith Bool Permutation Lia.
 From EV Require Import HeterModel HeterProofs HeterRefine HeterPif CallShape.
 From EV.gen Require GenHeter GenDisp.
 Import ListNotations.
@@ -223,5 +223,5 @@ Example C14_table_facts :
 Proof.
   split; [vm_compute; reflexivity|]. split; [vm_compute; reflexivity|].
   split; [vm_compute; reflexivity|]. split; [vm_compute; reflexivity|].
-  intros p Hp. do 5 (destruct p as [|p]; [vm_compute; reflexivity|]). exfalso. repeat apply Nat.succ_lt_mono in Hp. inversion Hp.
+  intros p Hp. do 5 (destruct p as [|p]; [vm_compute; reflexivity|]). exfalso. lia.
 Qed.
